@@ -16,7 +16,7 @@ ASSUMPTIONS = ['template line length as stated; placeholders are local (the only
 OUT = 'file encodings and newline handling of do_conf_file (I/O), configure_file() argument processing, lines longer than the bound, nested cmake ${${}}'
 MANIFEST = dict(
     text='Bounded symbolic decision: for ALL template lines up to the stated length over the placeholder alphabet and all configuration data of the stated shape, output / missing '
-         'names / error class equal an independent reference scanner; no rescan of substituted values in the meson format; header dump = exactly the keys, once, sorted.',
+         'names / error class equal an independent reference scanner; no rescan of substituted values in the meson format; header dump = exactly the keys, once, sorted; #mesondefine / #cmakedefine[01] lines through the real dispatchers with symbolic indentation and spacing; nested ${..@X@..} forms.',
     note='Trusted: symx engine (incl. its regex interpreter, validated natively on sampled paths), z3, the reference scanners. Bounds: line <=5 (quick) / 7 (thorough) characters, '
          'define lines with symbolic spacing, <=2 data entries.')
 
